@@ -1,5 +1,5 @@
 /-
-  Nervus.Spec.TxLog — what a user of the database relies on across crashes and failed commits
+  Nervus.Spec.CrashTxLog — what a user of the database relies on across crashes and failed commits
   (C01, C02, C08), stated over a log of transactions and nothing else.
 
   * the content of a database is the result of applying a list of transactions in order;
